@@ -285,14 +285,15 @@ var shortMonthNames = []string{
 // hostport is a simplified no-alloc version of
 // net.SplitHostPort. Since we know that the
 // address values have the correct form we can
-// skip all the error checking. Like SplitHostPort
-// it returns an IPv6 host without the brackets.
+// skip most of the error checking. Like SplitHostPort
+// it returns an IPv6 host without the brackets. An
+// address without a port, e.g. the host of the target
+// URL http://backend/, is a host with an empty port.
 func hostport(s string) (host, port string) {
-	if s == "" {
-		return "", ""
+	host = s
+	if n := strings.LastIndexByte(s, ':'); n >= 0 && n > strings.LastIndexByte(s, ']') {
+		host, port = s[:n], s[n+1:]
 	}
-	n := strings.LastIndexByte(s, ':')
-	host, port = s[:n], s[n+1:]
 	if len(host) > 1 && host[0] == '[' && host[len(host)-1] == ']' {
 		host = host[1 : len(host)-1]
 	}
